@@ -9,6 +9,9 @@ mod json;
 mod report;
 mod rng;
 mod runner;
+mod tzgen;
+mod tzref;
+mod tzsim;
 mod world;
 
 #[global_allocator]
@@ -34,6 +37,7 @@ fn main() {
     let code = match args[1].as_str() {
         "c16" => c16::check(args.get(2).map(|s| s.as_str()).unwrap_or("quick"), seed()),
         "c17" => cronsim::check(args.get(2).map(|s| s.as_str()).unwrap_or("quick"), seed()),
+        "c18" => tzsim::check(args.get(2).map(|s| s.as_str()).unwrap_or("quick"), seed()),
         "replay" => {
             let path = args.get(2).unwrap_or_else(|| usage());
             let text = match std::fs::read_to_string(path) {
@@ -56,6 +60,7 @@ fn main() {
                 || match engine.as_str() {
                     "cronsim" => cronsim::replay(&doc),
                     "c16" => c16::replay(&doc),
+                    "tzsim" => tzsim::replay(&doc),
                     _ => {
                         eprintln!("HARNESS-ERROR: unknown engine {:?}", engine);
                         2
